@@ -368,10 +368,11 @@ Definition m_success (c : case) : bool :=
               end
   end.
 
-(* "fails only when all primaries fail" *)
+(* "fails only when all primaries fail" (and the internal "no results" error only without primaries) *)
 Definition m_fail (c : case) : bool :=
   match o_res c with
-  | RErr _ _ | RBug => forallb (fun n => failed (out n)) (c_prim c)
+  | RErr _ _ => forallb (fun n => failed (out n)) (c_prim c)
+  | RBug => is_nil (c_prim c)
   | _ => true
   end.
 
